@@ -22,11 +22,14 @@ RECURSIVE Subst(_,_)
 Subst(e, map) == LET i == Lookup(map, e) IN
    IF i # 0 THEN map[i][2]
    ELSE IF e.k \in {"int", "id"} THEN e
+   ELSE IF e.k = "mem" THEN [e EXCEPT !.a = [j \in 1..Len(e.a) |-> Subst(e.a[j], map)], !.g = [j \in 1..Len(e.g) |-> Subst(e.g[j], map)]]
    ELSE [e EXCEPT !.a = [j \in 1..Len(e.a) |-> Subst(e.a[j], map)]]
 \* bottom-up variant (children first, then the rebuilt node is looked up): what a post-order visitor computes
 RECURSIVE SubstBU(_,_)
 SubstBU(e, map) ==
-   LET e2 == IF e.k \in {"int", "id"} THEN e ELSE [e EXCEPT !.a = [j \in 1..Len(e.a) |-> SubstBU(e.a[j], map)]]
+   LET e2 == IF e.k \in {"int", "id"} THEN e
+             ELSE IF e.k = "mem" THEN [e EXCEPT !.a = [j \in 1..Len(e.a) |-> SubstBU(e.a[j], map)], !.g = [j \in 1..Len(e.g) |-> SubstBU(e.g[j], map)]]
+             ELSE [e EXCEPT !.a = [j \in 1..Len(e.a) |-> SubstBU(e.a[j], map)]]
        i == Lookup(map, e2)
    IN IF i # 0 THEN map[i][2] ELSE e2
 
@@ -39,7 +42,8 @@ RootMut(e) ==
                        [e EXCEPT !.g = IF e.g = <<>> THEN <<[k |-> "id", w |-> 16, n |-> "sg16"]>> ELSE <<>>]}
     [] e.k = "op" -> {[e EXCEPT !.o = IF e.o = "+" THEN "^" ELSE IF Len(e.a) = 1 THEN (IF e.o = "-" THEN "!" ELSE "-") ELSE "+"]}
                      \cup (IF Len(e.a) >= 2 THEN {[e EXCEPT !.a = SubSeq(e.a, 1, Len(e.a) - 1) \o <<e.a[1]>>]} ELSE {})
-                     \cup (IF Len(e.a) >= 3 THEN {[e EXCEPT !.a = SubSeq(e.a, 1, Len(e.a) - 1)]} ELSE {})
+                     \cup (IF Len(e.a) >= 2 THEN {[e EXCEPT !.a = SubSeq(e.a, 1, Len(e.a) - 1)]} ELSE {})      \* one operand fewer (prefix)
+                     \cup (IF e.o \in ACOps THEN {[e EXCEPT !.a = Append(e.a, e.a[1])]} ELSE {})                  \* one operand more
     [] e.k = "slice" -> (IF e.lo > 0 THEN {[e EXCEPT !.lo = e.lo - 1, !.hi = e.hi - 1]} ELSE {})
                         \cup (IF e.hi < e.a[1].w THEN {[e EXCEPT !.lo = e.lo + 1, !.hi = e.hi + 1]} ELSE {})
     [] e.k = "cond" -> {[e EXCEPT !.a = <<e.a[1], e.a[3], e.a[2]>>]}
@@ -59,6 +63,9 @@ FreshMaps(e) ==
 \* maps from an identifier of e to a small image tree of the same width
 IdImages(w) == {[k |-> "int", w |-> w, v |-> FromNat(1, w)], [k |-> "id", w |-> w, n |-> "y" \o ToString(w)],
                 [k |-> "op", w |-> w, o |-> "+", u |-> 0, a |-> <<[k |-> "id", w |-> w, n |-> "z" \o ToString(w)], [k |-> "int", w |-> w, v |-> Ones(w)]>>]}
+\* maps that rename the segment selector of a segmented memory cell (and nothing else)
+SegNodes(e) == UNION {{SubAt(e, p).g[i] : i \in 1..Len(SubAt(e, p).g)} : p \in {p \in Paths(e) : SubAt(e, p).k = "mem"}}
+SegMaps(e) == {<<<<sg, [sg EXCEPT !.n = sg.n \o "_b"]>>>> : sg \in {x \in SegNodes(e) : x.k = "id"}}
 IdNodes(e) == {SubAt(e, p) : p \in {p \in Paths(e) : SubAt(e, p).k = "id"}}
 IdMaps(e) == UNION {{<<<<x, img>>>> : img \in IdImages(x.w) \ {x}} : x \in IdNodes(e)}
 
